@@ -10,8 +10,8 @@ import Nebula.Model.HsManager
 namespace Nebula.HsNet
 open Nebula.HsManager
 
-/-- virtual clock origin of testing/synctest: 2000-01-01T00:00:00Z in ns -/
-def epoch : Nat := 946684800000000000
+/-- times are relative to the reset of the case (ns) -/
+def epoch : Nat := 0
 
 structure Net where
   nodes : List Node := []
@@ -26,6 +26,7 @@ inductive Op
   | lh (n a m : Nat) | hs (n a : Nat) | rehs (n a : Nat) | tick (n : Nat) | trig (n a : Nat)
   | sleep (ms : Nat) | deliver (k : Nat) | dto (k m : Nat) | send (n a port len : Nat)
   | idx (n v : Nat) | del (n li : Nat) | swap (n li : Nat)
+  | dl (j : Nat) | dlto (j m : Nat)               -- deliver counting back from the latest transmission
   deriving Repr, Inhabited
 
 def Net.node? (w : Net) (n : Nat) : Option Node := w.nodes[n]?
@@ -66,7 +67,7 @@ def Net.deliverTo (w : Net) (h : Handle) (src to : Nat) : Option (Net × Out) :=
         some ((w.setNode to nd').absorb to o, o)
       | .s2 _ respIdx initIdx time ver replyTo =>
         let res : S2Res :=
-          match (alookup initIdx nd.pindexes).bind nd.pendingById with
+          match (alookup initIdx nd.p.pindexes).bind nd.p.pendingById with
           | some hh =>
             if hh.pkt0 == some replyTo then
               .completed { certAddrs := certAddrsOf cn.cfg ver, certVer := ver, remoteIndex := respIdx, time := time }
@@ -77,7 +78,7 @@ def Net.deliverTo (w : Net) (h : Handle) (src to : Nat) : Option (Net × Out) :=
   | _, _ => none
 
 /-- result of one op: new network, acting node (if any), result word, emitted transmissions -/
-def Net.step (w : Net) : Op → Net × Option Nat × String × Out
+def Net.stepCore (w : Net) : Op → Net × Option Nat × String × Out
   | .sleep ms => ({ w with now := w.now + ms * 1000000 }, none, "ok", {})
   | .idx n v =>
     match w.node? n with
@@ -97,6 +98,8 @@ def Net.step (w : Net) : Op → Net × Option Nat × String × Out
       match w.deliverTo h src m with
       | some (w', o) => (w', some m, s!"to{m}", o)
       | none => (w, none, "nonode", {})
+  | .dl _ => (w, none, "nop", {})
+  | .dlto _ _ => (w, none, "nop", {})
   | op =>
     let (n, ev?) : Nat × Option Ev := match op with
       | .lh n a m => (n, some (.lh a m))
@@ -117,5 +120,13 @@ def Net.step (w : Net) : Op → Net × Option Nat × String × Out
         | _ => "ok"
       ((w.setNode n nd').absorb n o, some n, res, o)
     | _, _ => (w, none, "bad-op", {})
+
+/-- relative delivery ops name a transmission counting back from the latest one -/
+def Net.resolve (w : Net) : Op → Op
+  | .dl j => if j < w.log.length then .deliver (w.log.length - 1 - j) else .dl j
+  | .dlto j m => if j < w.log.length then .dto (w.log.length - 1 - j) m else .dlto j m
+  | op => op
+
+def Net.step (w : Net) (op : Op) : Net × Option Nat × String × Out := w.stepCore (w.resolve op)
 
 end Nebula.HsNet
